@@ -814,10 +814,37 @@ func c15Notifier() {
 		return
 	}
 	if excuse {
+		tasks := simrt.Tasks()
 		for _, p := range pubs {
-			if p.started && !p.returned {
-				simrt.Probe("publish_blocked_at_quiescence")
-				break
+			if !(p.started && !p.returned) {
+				continue
+			}
+			simrt.Probe("publish_blocked_at_quiescence")
+			// a publish that sits in its wait for the targets (blocked in a real channel operation, see
+			// cancelledStuck) may be held by a target nobody receives from, but not keep a target waiting
+			// that HAS a receiver: the targets are served as they become ready, in any order
+			if p.cancelInv != 0 || p.task < 0 || p.task >= len(tasks) || tasks[p.task].State != simrt.RealBlocked {
+				continue
+			}
+			simrt.Probe("publish_in_its_wait_at_quiescence")
+			for _, c := range chans {
+				if c.recvMode != c15RecvReady || !c15Assignable(p.vk, c.et) {
+					continue
+				}
+				for _, x := range c.subs {
+					if x.key != p.key || x.subRet == 0 || x.subRet > p.inv || x.unsubInv != 0 || x.cancelInv != 0 {
+						continue
+					}
+					cnt := c.got[p.uid]
+					if c15IsNil(p.vk) {
+						cnt = c.got[0]
+					}
+					simrt.Probe("ready_target_checked_while_publish_waits")
+					if cnt == 0 {
+						simrt.Failf("C15.ready-not-served", "quiescent: publish %d (key %v) is waiting for a target nobody receives from, while target %d, subscribed throughout (subscription %d) and with a receiver waiting, has not been given the value: every eligible subscription is served as soon as it is ready", p.uid, keys[p.key], c.id, x.id)
+						return
+					}
+				}
 			}
 		}
 	} else if stuck("after the workload") {
